@@ -554,7 +554,7 @@ def meaning(cs, sv: SpecView, c: Cand):
         S, E = cs.get("start", 0), cs.get("end")
         st = V
         for _, lo, hi in busy:
-            if hi <= S or (E is not None and lo >= E):
+            if (S > 0 and hi <= S) or (E is not None and lo >= E):
                 continue
             for a, b, active in periodic_windows(cs, hi + cs["period"]):
                 if hi > lo and olap(lo, hi, a, b) > 0:
@@ -636,7 +636,7 @@ def meaning(cs, sv: SpecView, c: Cand):
                 continue
             if periodic:
                 S, E = cs.get("start", 0), cs.get("end")
-                if hi <= S or (E is not None and lo >= E):
+                if (S > 0 and hi <= S) or (E is not None and lo >= E):
                     continue
                 if hi - lo > cs["period"]:
                     st = U
